@@ -51,7 +51,24 @@ structure Case where
   raced : Bool := false     -- a waiter acted before the exiter had finished
   deriving Inhabited
 
+/-- children-wrapper cases (`wcase`): the `WaitForms` state plus what the quiescent-point engine adds:
+which child sits in a handler, which has an accepted stop/drain request it has not acted upon yet -/
+structure WSt where
+  kind : String := "stop"
+  timed : Bool := false
+  x : X := {}
+  busy : List Bool := []
+  pending : List Bool := []
+  killed : List Bool := []
+  exited : List Bool := []
+  wrapped : Bool := false
+  advanced : Bool := false
+  reported : Bool := false
+  acc : String := "-"
+  deriving Inhabited
+
 structure St where
+  w : WSt := {}
   g : G := {}
   ports : Ports := {}
   /-- caller `i` = waiter thread `i` (its `Notified` slot is waiter `i` of `g`) -/
@@ -127,6 +144,131 @@ def track (c : Case) (iw : List String) : Case × List String :=
     (if c.succSeen && !succ then ["successor-lost-name"] else [])
   -- (reported once per loss)
   ({ c with lastFields := fieldsOf iw, lastSt := st, succSeen := succ }, orc)
+
+/-! ### children wrappers -/
+
+def xsteps (x : X) (l : List XTid) : X := xrun x l
+
+/-- the whole exit sequence of child `j` (at a quiescent point it has either not begun or finished) -/
+def runExit (x : X) (j : Nat) : X := xsteps x (List.replicate 19 (.kid j .e))
+
+/-- run to quiescence: every child that is not in a handler and has an accepted request exits; the
+`JoinSet` tasks are polled; the wrapper looks at its set -/
+def settle (w : WSt) : WSt :=
+  let n := w.x.kids.length
+  let (x, exited) := (List.range n).foldl (fun (acc : X × List Bool) j =>
+      if !(w.busy.getD j false) && w.pending.getD j false && !(acc.2.getD j false) then
+        (runExit acc.1 j, acc.2.set j true) else acc) (w.x, w.exited)
+  let polls := (List.range x.callers.length).flatMap (fun i => [XTid.call i, .call i, .call i])
+  let x := xsteps x (polls ++ (if w.wrapped then [.wrap 0] else []))
+  { w with x := x, exited := exited }
+
+def wDone (w : WSt) : Bool := w.x.wrappers.any (·.returned)
+
+def wSnap (w : WSt) : String :=
+  let l := w.x.callers.map (fun c =>
+    match w.x.kids[c.kid]? with
+    | some k =>
+      let f := k.g.sh.flags
+      s!"{c.kid}:{k.g.sh.status}:{b01 (k.g.sh.name == .self)}:{b01 !f.unregPid}:{b01 !f.pgLeft}:{b01 !f.unlinked}:{b01 f.postStop}:{b01 f.supNotified}"
+    | none => "?")
+  if l.isEmpty then "-" else ",".intercalate l
+
+def wShow (w : WSt) (withSnap : Bool := true) : WSt × String :=
+  let sts := ",".intercalate (w.x.kids.map (fun k => toString k.g.sh.status))
+  let ws := if wDone w then "done" else if w.wrapped then "pending" else "-"
+  let snap := if withSnap && wDone w && !w.reported then s!" snap={wSnap w}" else ""
+  ({ w with reported := w.reported || (withSnap && wDone w) }, s!"w={ws} kids={sts} acc={w.acc}{snap}")
+
+/-- The wrapper oracle on the implementation's own snapshot, taken by the wrapper task the moment the
+wrapper returned: `wrapperChildOk` for every child of the `get_children()` snapshot. -/
+def wSnapOracle (w : WSt) (iw : List String) : List String :=
+  match kv iw "snap" with
+  | none => []
+  | some "-" => []
+  | some s =>
+    let accs := ((kv iw "acc").getD "").splitOn ","
+    let bad := (s.splitOn ",").any (fun e =>
+      match e.splitOn ":" with
+      | [j, st, name, pid, pg, link, post, ev] =>
+        let j := j.toNat?.getD 0
+        let flags : Flags :=
+          { unregPid := pid == "0", unregName := name == "0", pgDemon := true, pgLeft := pg == "0",
+            postStop := post == "1", terminated := true, supNotified := ev == "1", unlinked := link == "0" }
+        let full := snapshotOk (st.toNat?.getD 0) flags (!(w.killed.getD j false))
+        !wrapperChildOk (accs.getD j "0" == "1") (w.timed && w.advanced) full
+      | _ => true)
+    if bad then ["wrapper-returned-before-accepted-child-stopped"] else []
+
+def wstep (st : St) (op impl : String) : St × StepOut :=
+  let iw := words impl
+  let w := st.w
+  match words op with
+  | ["wcase", kind, t, states] =>
+    let sts := states.splitOn ","
+    let n := sts.length
+    let g0 : G := init true [] [] 1 2
+    let x0 : X := { kids := List.replicate n { g := g0 }, wrappers := [{}] }
+    let x := sts.zipIdx.foldl (fun (x : X) (sj : String × Nat) =>
+      match sj.1 with
+      | "stopreq" | "dead" => xstep x (.stop sj.2)
+      | "drainreq" => xsteps x [.kid sj.2 (.d 0), .mark sj.2]
+      | _ => x) x0
+    let w0 : WSt :=
+      { kind := kind, timed := t == "t=1", x := x,
+        busy := sts.map (fun s => s == "busy" || s == "stopreq" || s == "drainreq"),
+        pending := sts.map (fun s => s == "stopreq" || s == "drainreq" || s == "dead"),
+        killed := List.replicate n false, exited := List.replicate n false }
+    let w1 := settle w0
+    let (w2, _) := wShow w1 false
+    let sts' := ",".intercalate (w2.x.kids.map (fun k => toString k.g.sh.status))
+    ({ st with w := w2, diverged := false }, { model := s!"ok kids={sts'}" })
+  | ["wrap"] =>
+    if w.wrapped then (st, { model := "bad-op" }) else
+    let n := w.x.kids.length
+    let live := (List.range n).filter (fun j => !(w.exited.getD j false))
+    let form : Form := if w.kind == "stop" then .stopWait else .drainWait
+    let callers : List Caller := live.map (fun j => { kid := j, form := form, timed := w.timed, w := 0, d := 1 })
+    let x : X := { w.x with callers := callers, wrappers := [{ callers := List.range callers.length }] }
+    let x := xsteps x ((List.range callers.length).map XTid.call)
+    let accOf (j : Nat) : Bool := x.callers.any (fun c => c.kid == j && c.accepted)
+    let pending := (List.range n).map (fun j => w.pending.getD j false || accOf j)
+    let acc := ",".intercalate ((List.range n).map (fun j => b01 (accOf j)))
+    let w1 := settle { w with x := x, pending := pending, wrapped := true, acc := acc }
+    let (w2, model) := wShow w1
+    ({ st with w := w2 }, { model := model, oracle := wSnapOracle w iw, nontrivial := w.busy.any id })
+  | ["release", j] =>
+    let j := j.toNat?.getD 0
+    let w1 := settle { w with busy := w.busy.set j false }
+    let (w2, model) := wShow w1
+    ({ st with w := w2 }, { model := model, oracle := wSnapOracle w iw, nontrivial := (kv iw "snap").isSome })
+  | ["kill", j] =>
+    let j := j.toNat?.getD 0
+    let w1 :=
+      if w.exited.getD j false then w else
+      match w.x.kids[j]? with
+      | none => w
+      | some k =>
+        -- a killed actor skips `post_stop`
+        let k' : Kid := { k with g := { k.g with exiter := { k.g.exiter with hasPostStop := false } } }
+        let x := runExit (xstep { w.x with kids := w.x.kids.set j k' } (.kill j)) j
+        { w with x := x, killed := w.killed.set j true, exited := w.exited.set j true }
+    let w1 := settle w1
+    let (w2, model) := wShow w1
+    let wk := { w with killed := w.killed.set j true }
+    ({ st with w := w2 }, { model := model, oracle := wSnapOracle wk iw, nontrivial := (kv iw "snap").isSome })
+  | ["advance"] =>
+    let x := if w.timed then xsteps w.x ((List.range w.x.callers.length).map XTid.timeout) else w.x
+    let w1 := settle { w with x := x, advanced := w.advanced || w.wrapped }
+    let (w2, model) := wShow w1
+    ({ st with w := w2 }, { model := model, oracle := wSnapOracle { w with advanced := w.advanced || w.wrapped } iw,
+                             nontrivial := (kv iw "snap").isSome })
+  | ["wend"] =>
+    let (w2, model) := wShow w false
+    -- every child has been let go: a wrapper still pending now hangs
+    let orc := if kv iw "w" == some "pending" then ["wrapper-hung"] else []
+    ({ st with w := w2 }, { model := model, oracle := orc })
+  | _ => (st, { model := "bad-op" })
 
 def step1 (st : St) (op impl : String) : St × StepOut :=
   let iw := words impl
@@ -274,9 +416,12 @@ def step1 (st : St) (op impl : String) : St × StepOut :=
     (st, { model := impl, oracle := orc.eraseDups, nontrivial := true })
   | _ => (st, { model := "bad-op" })
 
+def isWOp (op : String) : Bool :=
+  ["wcase ", "wrap", "release ", "kill ", "advance", "wend"].any (op.startsWith ·)
+
 def step (st : St) (op impl : String) : St × StepOut :=
-  let (st', out) := step1 st op impl
-  if st.diverged && !(op.startsWith "case ") && !(op.startsWith "xstress ") then (st', { out with model := impl })
+  let (st', out) := if isWOp op then wstep st op impl else step1 st op impl
+  if st.diverged && !(op.startsWith "case ") && !(op.startsWith "wcase ") && !(op.startsWith "xstress ") then (st', { out with model := impl })
   else if out.model != impl then ({ st' with diverged := true }, out)
   else (st', out)
 
